@@ -13,8 +13,12 @@ H="${VERIF_HARNESS_DIR:-$HERE/harness}"
 SEED="${VERIF_SEED:-1}"
 "$TGT/release/hfcheck" "$ID" "$MODE"
 rc=$?
-[ "$MODE" = "thorough" ] || exit $rc
 [ $rc -eq 2 ] && exit 2
+# second opinion: an independent Python implementation re-decides the expected values of the sampled event log;
+# a disagreement between the two oracles is a defect of my machinery -> INCONCLUSIVE, never a violation
+python3 "$HERE/tools/offline_check.py" "$ID" --repo "${VERIF_REPO:-/repo}"
+if [ $? -eq 2 ]; then echo "INCONCLUSIVE property=$ID the Rust model and the Python second opinion disagree (see ORACLE-DISAGREEMENT lines)"; exit 2; fi
+[ "$MODE" = "thorough" ] || exit $rc
 AUX="$TGT/aux-$ID"; rm -rf "$AUX"; mkdir -p "$AUX"
 fail=$rc
 note() { echo "$1" >> "$AUX/summary.txt"; }
